@@ -229,7 +229,7 @@ CHECKS = {
         "assumptions": ["Patch itself is not in the list of pure calls: it always gets a fresh parse of a"],
         "legs": [
             rapid("history", "TestC15History", {"checks": 20000, "shards": 4}, {"checks": 250000, "shards": 16, "timeout": 6000}),
-            rapid("determinism", "TestC15Determinism", {"checks": 2500, "shards": 4}, {"checks": 30000, "shards": 16, "timeout": 6000}),
+            rapid("determinism", "TestC15Determinism", {"checks": 2500, "shards": 4}, {"checks": 12000, "shards": 16, "timeout": 6000}),
             rapid("processes", "TestC15Processes", {"checks": 25, "shards": 6, "shrinktime": "10s"}, {"checks": 400, "shards": 16, "timeout": 6000}),
         ],
     },
